@@ -107,6 +107,12 @@ check("C09", "writer", "model_checking",
       "reachable-state enumeration (all fill levels x write alphabet) with bounded sink-fault enumeration, two build profiles",
       "DESIGN.md §4 C09")
 
+check("C04", "fft", "model_checking",
+      "The state of an FFT object that can influence a later call is the size of its twiddle / bit-reversal tables. ALL states 4..2^11 (quick) / 2^13 (thorough), each reached both by update_n and by a large multiply, x ALL calls of the alphabet: every length pair of 0..40 ∪ {63..65,127..129} (thorough 0..130 and around 2^8..2^10) x 12 coefficient pattern pairs (all ±A, alternating, spikes, ends, ramp, irregular) x magnitudes {1, sqrt(Amax), Amax} on the envelope boundary, for f64 and f32; all vectors over {-A,-1,0,1,A} for lengths <= 4; envelope corners with long vectors; all call histories of length <= 3 over a 7-call alphabet. Each call is judged against the schoolbook convolution in i128, against a fresh object, repeated on the same object, through multiply_into on a pre-filled destination, and through fft x fft -> fft_inv / fft_inv_into.",
+      "Envelope read as max|coef|^2 * max(len a, len b) <= 1e12 (f64) / 1e3 (f32): inside the property's formula and inside the crate's published table also for unequal lengths (see DESIGN §4 C04 for why min(len) was a false alarm). Coefficient vectors are boundary-magnitude families and a 5-letter alphabet, not all of Z^n (exhaustive: false).",
+      "all object states x all calls of a finite alphabet, exact integer reference; bounded call histories",
+      "DESIGN.md §4 C04")
+
 PENDING = {
 }
 
